@@ -6,6 +6,7 @@ import ast
 import collections
 import itertools
 import math
+import re
 from typing import Callable, Collection, Mapping, Sequence, Tuple
 
 import sympy
@@ -70,7 +71,35 @@ def _truth_tested_nodes(root: ast.AST) -> Collection[ast.AST]:
 
 
 def _parse_sympy_expr(expression):
-    return sympy.parsing.sympy_parser.parse_expr(expression)
+    # Every name is a variable of the program, never one of sympy's own objects (I, E, S, N, pi...)
+    expression = " ".join(expression.split())
+    local_dict = {name: sympy.Symbol(name) for name in re.findall(r"[^\W\d]\w*", expression)}
+    try:
+        parsed = sympy.parsing.sympy_parser.parse_expr(expression, local_dict=local_dict)
+    except (TypeError, AttributeError, SyntaxError, sympy.SympifyError) as error:
+        # Bitwise operators and other things that are not arithmetic
+        raise ValueError(f"Cannot interpret {expression} as arithmetic") from error
+
+    if not isinstance(parsed, sympy.Expr):
+        raise ValueError(f"{expression} is not a number")
+
+    return parsed
+
+
+def _sympy_expr_to_ast(expression) -> ast.AST:
+    """Python code for a sympy expression, if it is arithmetic over the program's variables."""
+    root = core.parse(str(expression))
+    symbol_names = {symbol.name for symbol in expression.free_symbols}
+    arithmetic = (ast.Module, ast.Expr, ast.BinOp, ast.UnaryOp, ast.Constant)
+    arithmetic += (ast.operator, ast.unaryop, ast.expr_context)
+    for node in ast.walk(root):
+        if isinstance(node, ast.Name):
+            if node.id not in symbol_names:
+                raise ValueError(f"{node.id} in {expression} is a sympy object, not a variable")
+        elif not isinstance(node, arithmetic):
+            raise ValueError(f"{expression} is not plain arithmetic")
+
+    return root
 
 
 def _ast_to_symmath_expr_conversion(node, conversion):
@@ -161,8 +190,7 @@ def _simplify_math(f: Callable) -> ast.AST:
 
         # TODO substitute constant calls, attributes and other stuff with variables
 
-        source = str(sympy.simplify(source))
-        return core.parse(source)
+        return _sympy_expr_to_ast(sympy.simplify(_parse_sympy_expr(source)))
 
     return wrapper
 
@@ -240,7 +268,7 @@ def _integrate_over(expr: ast.AST, generators: Sequence[ast.comprehension]) -> a
     sym_expr = sym_expr.doit()
     sym_expr = sympy.simplify(sym_expr)
 
-    return core.parse(str(sym_expr))
+    return _sympy_expr_to_ast(sym_expr)
 
 
 @processing.fix
@@ -281,7 +309,11 @@ def simplify_math_iterators(source: str) -> str:
             if len(arg.args) == 3 and not core.match_template(arg.args[2], ast.Constant(value=1)):
                 # The closed form is that of consecutive integers
                 continue
-            yield node, _sum_range(arg)
+            try:
+                replacement = _sum_range(arg)
+            except (NotImplementedError, ValueError):
+                continue
+            yield node, replacement
 
         elif core.match_template(arg, basic_collection_template):
             if any(core.walk(arg, ast.Attribute)):
@@ -296,7 +328,11 @@ def simplify_math_iterators(source: str) -> str:
             ):
                 # Nothing to add up, or something that is not a number
                 continue
-            yield node, _sum_constants(arg.elts)
+            try:
+                replacement = _sum_constants(arg.elts)
+            except ValueError:
+                continue
+            yield node, replacement
 
         elif core.match_template(arg, basic_comprehension_template):
             if any(core.walk(arg, (ast.Attribute, ast.Subscript))):
